@@ -377,6 +377,32 @@ def recover(shares, passphrase=b"", exact=False):
     return decrypt(ems, passphrase, s0["exp"], s0["id"])
 
 
+def recover_ems(shares, exact=False):
+    """The share-combination half of recover(): the encrypted master secret (before decryption) or Invalid.
+    Added for callers that decrypt many share sets of one split (decryption memoised by the caller);
+    selftest() checks decrypt(recover_ems(x)) == recover(x) on the published vectors."""
+    if not shares:
+        raise Invalid("no shares")
+    for f in ("id", "exp", "gt", "gc", "bits"):
+        if len({s[f] for s in shares}) != 1:
+            raise Invalid("mismatching " + f)
+    if len({(s["gi"], s["mi"]) for s in shares}) != len(shares):
+        raise Invalid("duplicate share index")
+    s0 = shares[0]
+    if s0["gt"] > s0["gc"]:
+        raise Invalid("gt > gc")
+    groups = {}
+    for s in shares:
+        groups.setdefault(s["gi"], []).append(s)
+    gpoints = []
+    for gi in sorted(groups):
+        g = groups[gi]
+        if len({s["mt"] for s in g}) != 1:
+            raise Invalid("mismatching member thresholds")
+        gpoints.append((gi, recover_points(g[0]["mt"], [(s["mi"], s["value"]) for s in g], exact)))
+    return recover_points(s0["gt"], gpoints, exact)
+
+
 def split_points(threshold, count, secret, rnd_bytes):
     """Spec's SplitSecret with the random material supplied by the caller (a callable n -> bytes)."""
     if not 1 <= threshold <= count <= 16:
@@ -580,6 +606,8 @@ def selftest():
         assert recover(shares, b"TREZOR", exact=True).hex() == master
         assert recover(shares, b"TREZOR").hex() == master
         assert recover(shares, b"").hex() != master
+        for ex in (True, False):
+            assert decrypt(recover_ems(shares, ex), b"TREZOR", shares[0]["exp"], shares[0]["id"]).hex() == master
         ems = encrypt(bytes.fromhex(master), b"TREZOR", shares[0]["exp"], shares[0]["id"])
         assert decrypt(ems, b"TREZOR", shares[0]["exp"], shares[0]["id"]).hex() == master
     for texts in _INVALID:
@@ -588,6 +616,12 @@ def selftest():
         except Invalid:
             continue
         raise AssertionError("invalid vector accepted: " + texts[0][:30])
+    for texts in _INVALID:
+        try:
+            recover_ems([decode_share(t) for t in texts], exact=True)
+        except Invalid:
+            continue
+        raise AssertionError("invalid vector accepted by recover_ems: " + texts[0][:30])
     # residue vs root evaluation on a deterministic family of words
     for n in range(200):
         vals = [int.from_bytes(hashlib.sha256(b"rs%d-%d" % (n, i)).digest()[:2], "big") % 1024 for i in range(20 + n % 14)]
